@@ -1,5 +1,27 @@
 chk('C02', 'model_checking',
-    'explicit-state BFS over transform programs - all sequences of the 6 operations (w|f|t) x (shift False|True) of depth <= 2 (quick) / <= 4 (thorough; <= 3 for the extra lengths 6, 9, 13, 31, 32), de-duplicated by canonical object state - executed on the real electrical_signal / optical_signal 1-pol / 2-pol objects from every leaf of the input alphabet: the FULL BASIS e_k and j*e_k (every sample index, every polarisation row, real and complex dtype) of every length in {1,2,3,4,5,7,8,11,16,17}, plus real/int/complex ramps with different rows and one VERIF_SEED-selected random field, each with noise absent / noise = basis element under a zero signal / mixed non-zero-sum noise / zero-sum noise (3 942 leaves quick, 8 505 thorough; 44 364 / 728 179 distinct states, 110 514 / 1 915 050 transitions). Every transition is executed in lock-step with a numpy.fft row-wise reference model AND an exact 80-bit DFT-matrix model of the (signal, noise) pair; oracles on every transition: new object of the same class / n_pol / shape with no shared memory and untouched (write-protected) operand, values within d*8*eps*max(1,log2 N)*||x||2, Parseval per row for signal and noise, x(f) == x(w) bitwise, ifftshift(x(w,True)) == x(w) and fftshift(x(t,True)) == x(t) bitwise (odd lengths separate the two shifts), round trips x(w)(t) ~ x and x(t)(w) ~ x; on every state: power() == mean|S+N|^2 per row with the per-polarisation shape, w()/w(True) == 2*pi*k/N*gv.fs in FFT / fftshift order for the gv configured AFTER construction (12 gv call histories with distinct fs, some with a configured slot count); invalid domains must raise. A second part enumerates the full product layout x length x noise x (gv at construction) x (gv at call), 144 ordered gv pairs, with and without clean() in between',
-    'continuum quantifier (all fields) is covered at basis points + ramps + one seeded field only - by linearity the basis pins the operator, but that is still a finite statement; lengths > 32 and program depth > 4 are not explored; non-commensurate gv rates (fs != R*sps) are outside the gv alphabet; an invalid domain is required to raise ValueError or TypeError (docstring says TypeError, code raises ValueError; the statement is silent); power(by=signal|noise), abs(), t(), dt() are not in the statement and not checked; gv.fs read from the real gv object is taken as the configured rate (its consistency is C14)',
-    'explicit-state BFS over operation sequences on the real objects with two lock-step reference models (numpy.fft and exact long-double DFT) + full basis enumeration + full product of gv configuration pairs',
+    'explicit-state BFS over transform programs - all sequences of the 6 operations (w|f|t) x (shift False|True), de-duplicated by '
+    'canonical object state - on the real electrical / optical (1- and 2-pol) signal objects in lock-step with a numpy.fft row-wise model '
+    'AND an exact 80-bit DFT model of the (signal, noise) pair. Leaves (15 003 quick / 22 813 thorough): (a) lengths '
+    '{1,2,3,4,5,7,8,11,13,16,17} (+ 6,9,31,32 thorough) x FULL BASIS e_k, j*e_k on every row + ramps + one VERIF_SEED-selected field + 5 '
+    'scale members x noise absent / alone / mixed / zero-sum / all-zero; (b) 14 sample dtypes (bool .. complex long double) x 4 data '
+    'kinds incl. both integer limits x same- or other-dtype noise; (c) long lengths 97,127,1023..1025,4095..4097,8191 (+ '
+    '61,255,257,2047,4099,16384) with a reduced alphabet; (d) 27 construction forms (containers, dtype=, memory layouts, slice, copy(), '
+    'scalars) x 8 lengths. Depth: quick <= 2 (dtype / form leaves and records > 128 samples: 1); thorough <= 4 (3 for lengths '
+    '6,9,13,31,32,61,97,127; 2 for forms and records > 128 samples, 1 beyond 5000). Above 128 samples the exact model is evaluated at 16 '
+    'output positions only. 107 185 / 1 807 800 distinct states, 223 596 / 4 721 514 transitions. Every transition: new object, same '
+    'class / n_pol / shape, no aliasing, write-protected operand unchanged, values within d*8*eps*max(1,log2 N)*||x||2 of both models, '
+    'Parseval per row, x(f) == x(w) and the opposite numpy shift undoing the shift bitwise, round trips, repeated call; states: len(), '
+    'power(), power(by)/abs(by) (depth <= 1 / 2), w()/w(True) == 2*pi*k/N*gv.fs for the gv in force at call time (22 gv histories, 7 '
+    'non-commensurate); 17 invalid domains and 16 invalid by values must raise. Part wgrid: layout x 14 / 18 lengths x noise x 22^2 '
+    'ordered (gv at construction, gv at call) pairs, with and without clean() (37 752 / 49 368 cases). Shared call-history part: 4 calls '
+    'x 3 grids',
+    'continuum quantifier (all fields) is covered at basis points + ramps + scale members + one seeded field only - by linearity the '
+    'basis pins the operator, but it remains a finite statement; lengths above 32 only with the reduced alphabet, none above 8191 (16384 '
+    'thorough); program depth > 4 and non-finite values are not explored. Precision demanded on float16/float32/complex64 samples is '
+    'single (eps 2^-23: numpy >= 2 transforms them in single precision), double elsewhere; power()/abs() are not asserted where the '
+    'formula leaves the range of a bool / fixed-width integer dtype. An invalid domain or by may raise ValueError or TypeError (statement '
+    'silent); upper-case domains and letter case of by are neither demanded nor forbidden. phase(), t(), dt(), sps() are outside the '
+    'statement and not checked; gv.fs read from the real gv object is taken as the configured rate (its consistency is C14)',
+    'explicit-state BFS over operation sequences on the real objects with two lock-step reference models (numpy.fft and exact long-double '
+    'DFT) + full basis enumeration + full product of gv configuration pairs',
     'DESIGN.md 5/C02')
